@@ -123,15 +123,45 @@ def t_mutate(c, a):
         nb.free()
         L.SDendaccess(s)
         L.SDend(sd)
-    elif cls == "sdattr":
+    elif cls == "sdattr" and rest[1] == "units":
         sd = L.SDstart(pb, DFACC_RDWR)
         s = L.SDselect(sd, L.SDnametoindex(sd, rest[0].encode()))
         r = L.SDsetattr(s, b"units", DFNT["char8"], 3, b"m/h")
         L.SDendaccess(s)
         L.SDend(sd)
-    elif cls == "gattr":
+    elif cls == "gattr" and rest[0] == "title":
         sd = L.SDstart(pb, DFACC_RDWR)
         r = L.SDsetattr(sd, b"title", DFNT["char8"], 11, b"repack tesu")
+        L.SDend(sd)
+    elif cls in ("sdattr", "gattr"):
+        # one element of a numeric attribute: "gattr:<attr>:<element>[hi]" / "sdattr:<dataset>:<attr>:<element>[hi]"
+        # ("hi": only the most significant byte of the element changes)
+        sd = L.SDstart(pb, DFACC_RDWR)
+        if cls == "sdattr":
+            obj = L.SDselect(sd, L.SDnametoindex(sd, rest[0].encode()))
+            an, el = rest[1], rest[2]
+        else:
+            obj = sd
+            an, el = rest[0], rest[1]
+        hi = el.endswith("hi")
+        el = int(el[:-2] if hi else el)
+        ai = L.SDfindattr(obj, an.encode())
+        nm, nt, cnt = create_string_buffer(300), c_int32(), c_int32()
+        if ai == FAIL or L.SDattrinfo(obj, ai, nm, byref(nt), byref(cnt)) == FAIL:
+            r = FAIL
+        else:
+            esz = DFNT_SIZE[nt.value]
+            b = CBuf(esz * cnt.value)
+            L.SDreadattr(obj, ai, b.ptr)
+            raw = bytearray(b.raw())
+            b.free()
+            pos = el * esz + (esz - 1 if hi else 0)          # (little-endian host: the last byte is the most significant)
+            raw[pos] = (raw[pos] + 1) % 256 if not (hi and DFNT_FMT.get(nt.value) in ("f", "d")) else (raw[pos] ^ 0x01)
+            nb = CBuf(len(raw), bytes(raw))
+            r = L.SDsetattr(obj, an.encode(), nt.value, cnt.value, nb.ptr)
+            nb.free()
+        if cls == "sdattr":
+            L.SDendaccess(obj)
         L.SDend(sd)
     elif cls == "added":
         sd = L.SDstart(pb, DFACC_RDWR)
